@@ -175,6 +175,21 @@ func verifDraws() uint64 { return verifRand.n }
         "func internal_sync_nanotime() int64 {\n\tif verifRand.on {\n\t\treturn 1 // VERIF overlay: no real-time dependent lock hand-off (non-zero keeps the LIFO requeue of a woken waiter)\n\t}\n\treturn nanotime()\n", "sema.go/nanotime")
     files["sema.go"] = s
 
+    # ---- malloc.go ----------------------------------------------------
+    # go1.26 randomises the heap base address per process. Maps keyed by
+    # pointers (or by interfaces holding pointers) hash the ADDRESS, so their
+    # layout - and the order `range` visits them in - differed from process to
+    # process even with fixed hash keys: grpc-go closes its connections, and
+    # go-plugin's broker its listeners, in the order of such maps. (Found by
+    # the determinism self-test when bursts of 12-40 brokered connections were
+    # added: with one or two entries the order had never mattered.) Without
+    # the randomisation, one P, no GC and a seeded scheduler allocate the same
+    # objects at the same addresses in every process.
+    s = open(os.path.join(rt, "malloc.go")).read()
+    s = patch(s, "\trandomizeHeapBase = goexperiment.RandomizedHeapBase64 && ",
+        "\trandomizeHeapBase = false && goexperiment.RandomizedHeapBase64 && ", "malloc.go/randomizeHeapBase")
+    files["malloc.go"] = s
+
     replace = {}
     for name, text in files.items():
         p = os.path.join(out, name)
